@@ -244,8 +244,7 @@ Lemma fdt_collect_loop dir dh names : forall acc count,
 Proof.
   induction names as [|n rest IH]; intros acc count; cbn [collect_loop].
   - fdt_auto.
-  - eapply fdt_bind; [apply fdt_other_call; reflexivity|lia|].
-    intros r. cbn beta. destruct r; fdt_auto.
+  - fdt_auto.
 Qed.
 #[export] Hint Resolve fdt_collect_loop : fdt.
 
